@@ -309,6 +309,91 @@ def h_tridonic_cancel(ctx):
         return "cancel@%d" % when
 
 
+def h_tridonic_cancel_loss(ctx, rounds):
+    """A send is cancelled after its frame was handed to the interface, and the interface disappears before it
+    reports on that frame - `rounds` times over (the driver reconnects each time).  Afterwards nothing may be
+    left taken: an ordinary send completes with its own answer."""
+    with rigs.HidRig(ctx, 5) as rig:
+        echoed = ctx.fresh_bool("echo_before_cancel")
+        kind = ["eof", "oserror"][ctx.fresh_choice("kind", 2)]
+        v = ctx.fresh("v", 0, 255)
+        out = {"status": []}
+
+        async def main(loop):
+            state = {"mode": "leak", "written": 0}
+            d = H.tridonic("/dev/dali", reconnect_interval=1)
+            if ctx.symbolic:
+                rigs.symbolic_registries(d)
+            rigs.note_idle(d)
+            d.connection_status_callback.register(lambda dev, s: out["status"].append(s))
+
+            def gateway(data):
+                if data[0] == 0x01:
+                    if data[1] == 0x00:
+                        loop.call_soon(rig.deliver, loop, d, bytes([1, 0, 0, 1, 2] + [0] * 59))
+                    else:
+                        loop.call_soon(rig.deliver, loop, d, bytes([1, 1, 2, 3, 4] + [0] * 59))
+                    return
+                if data[0] != 0x12:
+                    return
+                state["written"] += 1
+                s, fr = data[1], list(data[4:8])
+                if state["mode"] == "leak":
+                    if echoed:
+                        loop.call_soon(rig.deliver, loop, d, rigs.tridonic_report(0x12, 0x73, fr, s))
+                    return
+                loop.call_soon(rig.deliver, loop, d, rigs.tridonic_report(0x12, 0x73, fr, s))
+                loop.call_soon(rig.deliver, loop, d, rigs.tridonic_report(0x12, 0x72, [0, 0, 0, v], s))
+            rig.os.on_write = gateway
+            d.connect()
+            await asyncio.sleep(0.2)
+            for k in range(rounds):
+                before = state["written"]
+                t = asyncio.ensure_future(d.send(gg.QueryActualLevel(A.GearShort(10 + k))))
+                for _ in range(40):
+                    if state["written"] > before:
+                        break
+                    await asyncio.sleep(0.005)
+                await vloop.settle(3)
+                t.cancel()
+                await vloop.settle(4)
+                out.setdefault("cancelled", []).append(t.done())
+                rig.deliver(loop, d, b"" if kind == "eof" else OSError("gone"))
+                await asyncio.sleep(3.0)
+            state["mode"] = "normal"
+            t3 = asyncio.ensure_future(d.send(gg.QueryMaxLevel(A.GearShort(2))))
+            await asyncio.sleep(5.0)
+            out["t3"] = _result(t3)
+            out["connected"] = d.connected.is_set()
+            out["outstanding"] = rigs.held(d)["entries"]
+            out["sem"] = 2 - rigs.held(d)["semaphores"]
+            out["locked"] = d.transaction_lock.locked()
+            if not t3.done():
+                t3.cancel()
+            d.disconnect()
+            await vloop.settle(3)
+        st, r = call(vloop.run, main)
+        tag = "tridonic/cancel-then-loss-x%d" % rounds
+        if st == "exc":
+            ctx.fail("harness run raised %r" % (r,), key=tag + "/run-raised:" + type(r).__name__)
+            return "raised"
+        ctx.prove(all(out.get("cancelled", [])), "a cancelled send did not finish", key=tag + "/not-done")
+        ctx.prove(out["connected"], "the driver did not reconnect", key=tag + "/reconnected")
+        kind_, payload = out["t3"]
+        ctx.prove(kind_ != "pending", "a send after %d cancelled-then-lost commands hangs" % rounds, key=tag + "/hang")
+        if kind_ == "ok":
+            ok = isinstance(payload, C.Response) and payload.raw_value is not None and not payload.raw_value.error
+            ctx.prove(ok and E.eq(payload.raw_value.as_integer, v), "the later send completed with %r" % (payload,),
+                      key=tag + "/answer")
+        elif kind_ == "exc":
+            ctx.fail("the later send failed with %r" % (payload,), key=tag + "/raised")
+        ctx.prove(out["outstanding"] == 0, "%d in-flight slot(s) left" % out["outstanding"], key=tag + "/slots")
+        ctx.prove(out["sem"] == 2 or kind_ == "pending", "command semaphore not restored (%r)" % out["sem"],
+                  key=tag + "/semaphore")
+        ctx.prove(not out["locked"] or kind_ == "pending", "transaction lock left held", key=tag + "/lock")
+        return "rounds=%d %s" % (rounds, kind_)
+
+
 def h_hasseb_loss(ctx, point):
     with rigs.HidRig(ctx, 1) as rig:
         exceptions = ctx.fresh_bool("exceptions")
@@ -370,6 +455,7 @@ def h_serial_silence(ctx, which, when, dt=False):
     cmd = led.QueryFeatures(A.GearShort(1)) if dt else gg.QueryActualLevel(A.GearShort(1))
     out = {}
     cut = 0
+    refuse_code = [1, 2, 0x80][ctx.fresh_choice("refuse_code", 3)] if when == "refused" else None
     if when == "truncated":
         full_len = len(rigs.luba_event_tx(1, b"\x00\x00")) if which == "luba" else 5
         cut = 1 + ctx.fresh_choice("cut", full_len - 1)
@@ -380,6 +466,13 @@ def h_serial_silence(ctx, which, when, dt=False):
         def gateway(data):
             if when == "confirm":
                 return                       # the gateway never confirms
+            if when == "refused":
+                # the gateway refuses every frame it is offered (transmit buffer full, error code e) and so
+                # never confirms a transmission
+                out["writes"] = out.get("writes", 0) + 1
+                if out["writes"] <= 400:
+                    loop.call_later(0.005, p.data_received, bytes(rigs.luba_frame(0x33, [refuse_code])))
+                return
             if when == "truncated":
                 # the confirmation breaks off after k bytes, then the line stays dead
                 if out.get("writes", 0) == 0:
@@ -412,7 +505,7 @@ def h_serial_silence(ctx, which, when, dt=False):
     drv = S.DriverLubaRs232 if which == "luba" else S.DriverSCIRS232
     kind_, payload = out["t"]
     ctx.prove(kind_ != "pending", "send hangs on a silent gateway", key=tag + "/hang")
-    if when in ("confirm", "truncated"):
+    if when in ("confirm", "truncated", "refused"):
         ctx.prove(kind_ == "exc", "send returned %r although the gateway never confirmed" % (payload,),
                   key=tag + "/no-error")
         ctx.prove(out["elapsed"] <= drv.timeout_tx_confirm + 0.05, "failed only after %.3f s (documented timeout "
@@ -588,6 +681,8 @@ def h_serial_cancel(ctx, which, dt=False):
 def cases(tier):
     inst = rigs.install_tridonic_structs
     cs = [Case("tridonic-cancel", h_tridonic_cancel, {}, install=inst)]
+    for n in (1, 2, 3):
+        cs.append(Case("tridonic-cancel-then-loss-x%d" % n, h_tridonic_cancel_loss, {"rounds": n}, install=inst))
     for p in POINTS:
         cs.append(Case("tridonic-%s" % p, h_tridonic_loss, {"point": p, "two_callers": False}, install=inst))
         if p in ("after-echo", "write-error", "idle") or tier != "quick":
@@ -601,6 +696,8 @@ def cases(tier):
         cs.append(Case("hasseb-%s" % p, h_hasseb_loss, {"point": p}, install=inst))
     for which in ("luba", "sci"):
         cs.append(Case("%s-silent-truncated" % which, h_serial_silence, {"which": which, "when": "truncated"}))
+        if which == "luba":
+            cs.append(Case("luba-refused", h_serial_silence, {"which": "luba", "when": "refused"}))
         for when in ("confirm", "answer"):
             cs.append(Case("%s-silent-%s" % (which, when), h_serial_silence, {"which": which, "when": when}))
             cs.append(Case("%s-silent-%s-dt" % (which, when), h_serial_silence,
